@@ -486,7 +486,10 @@ class AdaptiveSolverBase(SolverBase):
                 # do the step if the error is sufficiently small
                 if error_rel <= 1:
                     steps += 1
-                    t += dt_step
+                    # land exactly on t_end when the step was clipped to the remaining interval
+                    # (t + (t_end - t) may round to the float below t_end, which costs an extra
+                    # step of dt_min that ends beyond t_end)
+                    t = t_end if dt_step == t_end - t else t + dt_step
                     # copy new state into state_data to accept it
                     state_data[...], self.info["post_step_data"] = post_step_hook(
                         new_state, t, self.info["post_step_data"]
